@@ -19,7 +19,7 @@ fn hx(s: &str) -> u64 {
 ///   neg | clear | rt       q.neg() / q.clear() / q = from_bits(to_bits(q))
 /// result: "<to_posit> <is_zero> <is_nar> <bits> <p1>,<p2> <p1>,<p2>,<p3>"
 macro_rules! quire_hist {
-    ($Q:ty, $P:ty, $U:ty, $v:expr, $fmtbits:expr, $clone:expr) => {{
+    ($Q:ty, $P:ty, $U:ty, $v:expr, $fmtbits:expr, $clone:expr, $load:expr) => {{
         let v: &[&str] = $v;
         let p = |s: &str| <$P>::from_bits(hx(s) as $U);
         let mut q = <$Q>::init();
@@ -56,6 +56,7 @@ macro_rules! quire_hist {
                 "neg" => { q.neg(); i += 1; }
                 "clear" => { q.clear(); i += 1; }
                 "rt" => { q = <$Q>::from_bits(q.to_bits()); i += 1; }
+                "fb" => { q = $load(v[i + 1]); i += 2; }
                 t => panic!("bad token {}", t),
             }
         }
@@ -180,10 +181,10 @@ pub fn run(v: &[&str]) -> Option<String> {
         // the private helper behind P16E1 sampling, through the --cfg softposit_verif hook
         ("p16", "sub_one") => Some(format!("{:x}", P16E1::verif_sub_one(hx(v[2]) as u32).to_bits())),
         ("q32", "histpx") => Some(run_histpx(v)),
-        ("q8", "hist") => Some(quire_hist!(Q8E0, P8E0, u8, v, |q: &Q8E0| format!("{:08x}", q.to_bits()), |q: &Q8E0| Q8E0::from_bits(q.to_bits()))),
-        ("q16", "hist") => Some(quire_hist!(Q16E1, P16E1, u16, v, |q: &Q16E1| format!("{:032x}", q.to_bits()), |q: &Q16E1| Q16E1::from_bits(q.to_bits()))),
+        ("q8", "hist") => Some(quire_hist!(Q8E0, P8E0, u8, v, |q: &Q8E0| format!("{:08x}", q.to_bits()), |q: &Q8E0| Q8E0::from_bits(q.to_bits()), |h: &str| Q8E0::from_bits(u128::from_str_radix(h, 16).unwrap() as u32))),
+        ("q16", "hist") => Some(quire_hist!(Q16E1, P16E1, u16, v, |q: &Q16E1| format!("{:032x}", q.to_bits()), |q: &Q16E1| Q16E1::from_bits(q.to_bits()), |h: &str| Q16E1::from_bits(u128::from_str_radix(h, 16).unwrap()))),
         ("q32", "hist") => Some(quire_hist!(Q32E2, P32E2, u32, v,
-            |q: &Q32E2| q.to_bits().iter().map(|x| format!("{:016x}", x)).collect::<String>(), |q: &Q32E2| Q32E2::from_bits(q.to_bits()))),
+            |q: &Q32E2| q.to_bits().iter().map(|x| format!("{:016x}", x)).collect::<String>(), |q: &Q32E2| Q32E2::from_bits(q.to_bits()), |h: &str| { let z = format!("{:0>128}", h); let mut w = [0u64; 8]; for k in 0..8 { w[k] = u64::from_str_radix(&z[16 * k..16 * k + 16], 16).unwrap(); } Q32E2::from_bits(w) })),
         _ => None,
     }
 }
